@@ -22,7 +22,23 @@
    into the single label [LOp]: the only things that can happen in between are lock-free loads
    (equivalent to loads after the label) and a registration / un-registration (equivalent to one
    just before the label).  [pend] is the set of subscribers the running broadcast still has to
-   serve; the machine mutex and the manager mutex are held exactly while [pend <> []]. *)
+   serve; the machine mutex and the manager mutex are held exactly while [pend <> []].
+
+   The forwarder.  Unchanged code (legacy):  for s := range userCh { wrappedCh <- s }  - a forwarder
+   holding a value while the consumer does not read is blocked in the send forever, also after the
+   subscriber's context was cancelled (goroutine leak, C18).  Repaired code:
+     for s := range userCh {
+       select { case wrappedCh <- s:
+                case <-ctx.Done(): select { case wrappedCh <- s:
+                                            case <-time.After(forwardGrace): } } }   // 100 ms
+   i.e. once the context is cancelled a value the forwarder holds waits for room in the wrapped
+   channel only for a bounded grace; then it is discarded (label [LFwdAbort], a TIMED internal step
+   like the broadcast timeout [LDrop]; the subscriber "did not keep up": the ghost flag [dropped] is
+   set) and the forwarder goes on with the manager channel until the cleanup goroutine closes it;
+   then it closes the wrapped channel and ends ([LFwdClose], as before).  A consumer that keeps
+   reading after the cancel still receives everything.
+   [stepx fx] is the model with ([fx] = true) or without the repair; [fix_fwd] says which variant
+   [step] - the one all theorems and the correspondence checks are about - is. *)
 From Coq Require Export List NArith Bool.
 Export ListNotations.
 
@@ -107,7 +123,9 @@ Record sub := mkSub {
   wclosed : bool;
   cancelled : bool;      (* the subscriber's context *)
   unsub : bool;          (* cleanup goroutine has un-registered (and closed bch) *)
-  dropped : bool;        (* a broadcast timed out on this subscriber: it did not keep up *)
+  dropped : bool;        (* a broadcast timed out on this subscriber, or the repaired forwarder discarded a
+                            value after the cancel because the wrapped channel stayed full for the whole
+                            grace period: it did not keep up *)
   got : list st;         (* what the consumer received, oldest first *)
   gotclosed : bool;      (* the consumer saw the channel closed *)
   reg_at : nat;          (* ghost: number of state changes so far at registration *)
@@ -138,7 +156,8 @@ Inductive label :=
 | LRecv (i : nat) (v : st)
 | LRecvClosed (i : nat)
 | LGet (v : st)                 (* GetState() = v *)
-| LIsRun (b : bool).            (* IsRunning() = b  (GetState() == Running in all three runners) *)
+| LIsRun (b : bool)             (* IsRunning() = b  (GetState() == Running in all three runners) *)
+| LFwdAbort (i : nat).          (* repaired forwarder: cancelled, wrapped channel full, grace expired: value discarded *)
 
 Fixpoint upd (i : nat) (f : sub -> sub) (l : list sub) : list sub :=
   match l, i with
@@ -176,7 +195,9 @@ Definition new_sub (n : nat) : sub :=
 
 Definition is_nil {A} (l : list A) : bool := match l with [] => true | _ => false end.
 
-Definition step (c : tcfg) (s : state) (l : label) : option state :=
+Definition fix_fwd : bool := true.
+
+Definition stepx (fx : bool) (c : tcfg) (s : state) (l : label) : option state :=
   match l with
   | LOp o ok =>
     if is_nil (pend s) then
@@ -281,7 +302,22 @@ Definition step (c : tcfg) (s : state) (l : label) : option state :=
       end)
   | LGet v => if st_eqb (cur s) v then Some s else None
   | LIsRun b => if Bool.eqb (st_eqb (cur s) Running) b then Some s else None
+  | LFwdAbort i =>
+    if fx then
+      with_sub s i (fun x =>
+        match sg x, hand x, wch x with
+        | SLive, Some _, _ :: _ =>
+          if cancelled x
+          then Some (mkSub SLive (bch x) (bclosed x) None (wch x) (wclosed x) (cancelled x) (unsub x)
+                           true (got x) (gotclosed x) (reg_at x) (read_at x) (unsub_at x))
+          else None
+        | _, _, _ => None
+        end)
+    else None
   end.
+
+(* the model of the code as it is in the repository *)
+Definition step : tcfg -> state -> label -> option state := stepx fix_fwd.
 
 (* ------------------------------------------------------------------ *)
 (* The executable predicates of the property (used by the theorems and by the driver) *)
